@@ -147,6 +147,19 @@ Theorem exception_doc_xml_chars_refuted :
   exists t msg c, In t exception_templates /\ In c (exception_doc t msg None None) /\ xml_char c = false.
 Proof. exact exception_documents_xml_chars_refuted. Qed.
 
+(* The repair: when the message is first passed through xml_sanitize (every non-XML character replaced by
+   U+FFFD; the translator selects this as `msg_filter` once the render methods do it), the statement holds for
+   EVERY message; messages made of XML characters are not altered. *)
+Theorem exception_doc_xml_chars_after_repair :
+  forall t code loc msg,
+    In t exception_templates -> In code (opt_strs exception_codes) -> In loc (opt_strs exception_locators) ->
+    forall c, In c (exception_doc t (xml_sanitize msg) code loc) -> xml_char c = true.
+Proof. exact exception_documents_sanitized_xml_chars. Qed.
+
+Theorem xml_sanitize_keeps_xml_text :
+  forall s, (forall c, In c s -> xml_char c = true) -> xml_sanitize s = s.
+Proof. exact xml_sanitize_id. Qed.
+
 (* Text inserted into an attribute value WITHOUT removing the quote character changes the element structure:
    the hypothesis `escape_html` of insertion_stays_in_attribute is needed.  The capabilities templates insert
    the request host / scheme this way (known finding `capabilities,host-header-markup`,
